@@ -260,7 +260,37 @@ def fresh_first_fit(arg):
     return bits(refit_only(c, seed, "first_after_fixed" if with_fixed else "first"))
 
 
-def refit_only(c, seed, mode):
+def judge_fixed_fit(c, mk, names, x, info):
+    """the fit of the instance whose parameter kfix is FIXED AWAY from the generating value (fixval = the
+    spec's UserStart value): log-likelihood at its start, after the fit, and the best log-likelihood among
+    the fits with one free parameter moved by +-2 % (local optimality of the constrained maximum)"""
+    k = c["kfix"] - 1
+    fixed = {"f_" + names[k]: c["fixval"] / 1e6}
+    other = mk(**fixed)
+    info["fx_ll0"] = qll(loglik(other, x))
+    other.fit(x)
+    par = [float(other.parameters[n]) for n in names]
+    info["fx_ll"] = qll(loglik(other, x))
+    info["fx_fin"] = bool(all(math.isfinite(v) for v in par))
+    best = float("-inf")
+    if info["fx_fin"]:
+        for i, v in enumerate(par):
+            if i == k or (c["fam"] == "ScipyGammaFloc" and i == 1):
+                continue
+            for sgn in (1.0, -1.0):
+                q = list(par)
+                q[i] = v + sgn * 0.02 * max(abs(v), 0.1)
+                try:
+                    ll = loglik(mk(**dict(zip(names, q))), x)
+                except Exception:  # noqa
+                    continue
+                if ll == ll and ll > best:
+                    best = ll
+    info["fx_pert"] = qll(best)
+    return other
+
+
+def refit_only(c, seed, mode, info=None):
     """the fits of a case again (no likelihoods).  mode "all": all three; "first": only the first fit;
     "first_after_fixed": the first fit preceded by a fit of ANOTHER instance of the same family that has
     parameter kfix fixed at fixval"""
@@ -272,7 +302,9 @@ def refit_only(c, seed, mode):
     x = draw(c["fam"], theta, c["n"], np.random.default_rng(data_seed(seed, c)))
     with warnings.catch_warnings():
         warnings.simplefilter("ignore")
-        if with_fixed_first:
+        if with_fixed_first and info is not None:
+            judge_fixed_fit(c, mk, names, x, info)
+        elif with_fixed_first:
             other = mk(**{"f_" + names[c["kfix"] - 1]: c["fixval"] / 1e6})
             other.fit(x)
         obj = mk() if c["kind"] == "default" else mk(**dict(zip(names, start)))
@@ -310,13 +342,18 @@ def run_chunk(arg):
                 r.setdefault(field, [])
                 continue
             try:
-                r[field] = bits(refit_only(c, seed, "first_after_fixed" if with_fixed else "all"))
+                info = {} if with_fixed else None
+                r[field] = bits(refit_only(c, seed, "first_after_fixed" if with_fixed else "all", info))
+                if info:
+                    r.update(info)
             except Exception as e:  # noqa
                 r["exc"] = f"{'history' if with_fixed else 'second order'}: {type(e).__name__}: {e}"[:200]
                 r[field] = []
     for r in recs:
         for f in ("bitsA", "bits1A", "bitsB", "bits1C", "bits10", "bits1H"):
             r.setdefault(f, [])
+        r.setdefault("fx_ll0", NEG); r.setdefault("fx_ll", 0); r.setdefault("fx_pert", NEG); r.setdefault("fx_fin", True)
+        r["kfix"] = next(c["kfix"] for rid, c in items if rid == r["id"])
     return recs
 
 
@@ -387,6 +424,8 @@ def selftest(ctx, cases, recs, failing):
     m(sc, "ScaleEquivariant", p2=[sc["p2"][1], sc["p2"][0], sc["p2"][2]], ll2=sc["ll2"] - 70)
     m(sc, "StartAsSpecified", p0=[v + 5 for v in sc["p0"]])
     m(sc, "UnexpectedException", exc="ValueError: x")
+    m(sc, "NoLikelihoodLoss.fixed", fx_ll0=sc["fx_ll"] + 60)
+    m(sc, "LocallyOptimal.fixed", fx_pert=sc["fx_ll"] + 60)
     m(sc, "CaseOrderIndependent", bitsB=sc["bitsB"][:-1] + [sc["bitsB"][-1] ^ 1])        # last bit of one estimate
     m(sc, "FixedFitDoesNotLeak", bits1C=bits([1.0]) + sc["bits1C"][3:])                  # a stale constant
     m(sc, "CaseOrderIndependent", bits10=sc["bits10"][:-1] + [sc["bits10"][-1] ^ 1])
